@@ -161,12 +161,12 @@ def jobs_for(ctx):
         for i in range(4):
             jobs.append({"case": c, "mode": "all", "budget": 0, "seed": rng.randrange(1 << 30), "chunk": (i, 4)})
     # … on random ≤ 4-task projects …
-    for _ in range(scale(1, 12)):
+    for _ in range(scale(1, 8)):
         c = random_case(rng)
         for i in range(4):
             jobs.append({"case": c, "mode": "all", "budget": 0, "seed": rng.randrange(1 << 30), "chunk": (i, 4)})
     # … and sampled points, second kills and other recovery configurations on more and bigger projects
-    for _ in range(scale(6, 80)):
+    for _ in range(scale(6, 60)):
         jobs.append({"case": random_case(rng, big=rng.random() < 0.5), "mode": "sample", "budget": 8 if not ctx.thorough else 12,
                      "seed": rng.randrange(1 << 30)})
     return jobs
